@@ -70,7 +70,7 @@ def guard_check(ck, fut):
     event streams, against the observed outcomes; the model's verdict on both streams (correspondence)"""
     res = fut.result()
     defs = [f"Definition dt_table := {res['dt_table']}."]
-    terms, meta = [], []
+    terms, meta, groups = [], [], []
     stats = {"jobs": len(res["jobs"]), "unsupported": 0, "by_kind": {}}
     for j in res["jobs"]:
         if j.get("crashed"):
@@ -79,17 +79,19 @@ def guard_check(ck, fut):
             continue
         if j.get("skipped") or not j.get("universe") or not j.get("conv"):
             continue
-        defs.append(f"Definition u_{j['id']} : universe := {j['universe']}.")
-        defs.append(f"Definition tbl_{j['id']} : conv_table := {j['conv']}.")
-        defs.append(f"Definition nd_{j['id']} : list (cls * list str) := {j['nodefault']}.")
+        gterms = []
+        groups.append((f"Definition u_{j['id']} : universe := {j['universe']}.\n"
+                       f"Definition tbl_{j['id']} : conv_table := {j['conv']}.\n"
+                       f"Definition nd_{j['id']} : list (cls * list str) := {j['nodefault']}.", gterms))
         for c in j["cases"]:
             if c.get("term"):
                 terms.append(c["term"])
+                gterms.append(c["term"])
                 meta.append((j, c))
             else:
                 stats["unsupported"] += 1
     checks = {k: k for k in ["model_agrees", "model_same", "obs_same", "obs_same_dict", "ws_guard", "maps_guard", "attrs_guard", "rename_guard"]}
-    bad, cstats = coq_robust.matrix(ck, "c09_guard", IMPORTS, "\n".join(defs) + GUARD_DEFS, "c09_case", checks, terms, targets=["Model/ParserInvCorr.vo", "Proofs/ParserInvWs.vo", "Proofs/ParserInvAttrs.vo", "Proofs/ParserCtxGuard.vo"])
+    bad, cstats = coq_robust.matrix_grouped(ck, "c09_guard", IMPORTS, "\n".join(defs) + GUARD_DEFS, groups, "c09_case", checks, targets=["Model/ParserInvCorr.vo", "Proofs/ParserInvWs.vo", "Proofs/ParserInvAttrs.vo", "Proofs/ParserCtxGuard.vo"])
     stats["coq_eval"] = cstats
     badsets = {k: set(v) for k, v in bad.items()}
     guard_of = {"ws": "ws_guard", "redecl": "maps_guard", "attrs": "attrs_guard", "rename": "rename_guard"}
